@@ -1903,9 +1903,9 @@ def run(ctx):
                                 buffered=80 if quick else 10 ** 6)
                     flush_deferred(ctx, _DEFER[0])
                 _tick("status-conc corpus")
-                for _ in range(4 if quick else 40):
-                    conc_family(ctx, gen_status_conc(rng), srun, d, pairs=24 if quick else 200, random_plans=6 if quick else 40,
-                                buffered=8 if quick else 60)
+                for _ in range(4 if quick else 25):
+                    conc_family(ctx, gen_status_conc(rng), srun, d, pairs=24 if quick else 120, random_plans=6 if quick else 30,
+                                buffered=8 if quick else 40)
                 for _ in range(2 if quick else 15):
                     conc_family(ctx, gen_status_conc(rng, 3), srun, d, random_plans=8 if quick else 40, buffered=3 if quick else 10)
                 flush_deferred(ctx, _DEFER[0])
